@@ -366,14 +366,16 @@ def eval_layer(ctx, E, H):
                 continue
             break
         b = [F(rng.randint(-8, 8), 2) for _ in range(dim)]
-        maps[name] = {"A": [[float(x) for x in row] for row in A], "b": [float(x) for x in b]}
-        fr[name] = (A, Ai, b)
+        kk = rng.choice([F(3), F(1, 2), F(5, 4), F(2)])
+        maps[name] = {"A": [[float(x) for x in row] for row in A], "b": [float(x) for x in b], "k": float(kk)}
+        fr[name] = (A, Ai, b, kk)
     herm = {}
     for name in H:
         a = F(rng.randint(-8, 8), 4)
         L = F(rng.randint(1, 12), 4)
-        herm[name] = [float(a), float(a + L)]
-        fr[name] = (a, L)
+        kk = rng.choice([F(3), F(1, 2), F(5, 4), F(2)])
+        herm[name] = [float(a), float(a + L), float(kk)]
+        fr[name] = (a, L, kk)
     rc, out, err = ctx.impl_python(os.path.join(common.VERIF, "corr", "impl_eval.py"),
                                    input=json.dumps({"maps": maps, "herm": herm}), timeout=600)
     if rc != 0:
@@ -395,8 +397,44 @@ def eval_layer(ctx, E, H):
     getters = ["N_pg", "dN_pg", "ddN_pg", "dddN_pg", "ddddN_pg"]
     for name, r in E.items():
         dim, nPe = r["dim"], r["nPe"]
-        A, Ai, b = fr[name]
+        A, Ai, b, kk = fr[name]
+        # evaluator on the tabulated local coordinates (as returned, possibly integer arrays)
+        for t in names:
+            got = impl["lagrange"][name]["at_nodes"][t]
+            tab = r["tables"][t]
+            if "raises" in got or tab is None:
+                if not ("raises" in got and tab is None):
+                    bad.setdefault("%s:at_nodes:%s:raises" % (name, t), []).append((str(got)[:80], "table" if tab else "raises", None, 0.0, 1.0))
+                continue
+            for p_, pt in enumerate(r["nodes"]):
+                for c in range(len(tab[0])):
+                    for i in range(nPe):
+                        try:
+                            g_ = got["v"][p_][c][i]
+                        except (IndexError, TypeError):
+                            g_ = None
+                        cmp("%s:at_nodes:%s" % (name, t), g_, pyexpr.ev(tab[i][c], pt), nav=["lagrange", name, "at_nodes", t, "v", p_, c, i])
+        # second use after an in-place rescaling of the coordinates by kk
+        for mt, dd in impl["lagrange"][name]["rescaled"].items():
+            pts2 = [[F(int(x[0]), int(x[1])) for x in p] for p in impl["lagrange"][name][mt]["gauss"]]
+            got = dd["dN_e_pg"]
+            if "v" in got:
+                for p_, pt in enumerate(pts2):
+                    gxi = [[pyexpr.ev(r["tables"]["_dN"][i][c], pt) for i in range(nPe)] for c in range(dim)]
+                    for k_ in range(dim):
+                        for i in range(nPe):
+                            exp = sum(Ai[k_][c] * gxi[c][i] for c in range(dim)) / kk
+                            try:
+                                g_ = got["v"][0][p_][k_][i]
+                            except (IndexError, TypeError):
+                                g_ = None
+                            cmp("%s:%s:dN_e_pg:after-rescale" % (name, mt), g_, exp, scale=max(abs(float(x)) for row in Ai for x in row) / float(kk),
+                                nav=["lagrange", name, "rescaled", mt, "dN_e_pg", "v", 0, p_, k_, i])
+            else:
+                bad.setdefault("%s:%s:dN_e_pg:after-rescale:raises" % (name, mt), []).append((got.get("raises"), "array", None, 0.0, 1.0))
         for mt, d in impl["lagrange"][name].items():
+            if mt in ("at_nodes", "rescaled"):
+                continue
             pts = [[F(int(x[0]), int(x[1])) for x in p] for p in d["gauss"]]
             for t, gname in zip(names, getters):
                 got = d[gname]
@@ -459,7 +497,7 @@ def eval_layer(ctx, E, H):
                     cmp("%s:%s:weightedJacobian" % (name, mt), gw["v"][0][p], ws[p] * abs(detA), nav=["lagrange", name, mt, "wJ_e_pg", "v", 0, p])
         ctx.note_case("eval:" + name)
     for name, r in H.items():
-        a, L = fr[name]
+        a, L, kk = fr[name]
         d = impl["hermite"][name]
         pts = [F(int(p[0][0]), int(p[0][1])) for p in d["gauss"]]
         for k, t in enumerate(["N", "dN", "ddN", "dddN"]):
@@ -481,6 +519,23 @@ def eval_layer(ctx, E, H):
                             g_ = None
                         cmp("%s:Hermitian_%s_%s" % (name, t, form), g_, exp, scale=float((F(2) / L) ** k * max(L, 1)),
                             nav=["hermite", name, "%s_%s" % (t, form), "v"] + ([p, 0, f_] if form == "pg" else [0, p, 0, f_]))
+        # second use after the segment was rescaled in place: new length kk * L
+        pts_h = [F(int(p[0][0]), int(p[0][1])) for p in d["gauss"]]
+        L2 = kk * L
+        for k, t in enumerate(["N", "dN", "ddN", "dddN"]):
+            got = d["rescaled"]["%s_e_pg" % t]
+            if "v" not in got:
+                bad.setdefault("%s:%s_e_pg:after-rescale:raises" % (name, t), []).append((got.get("raises"), "array", None, 0.0, 1.0))
+                continue
+            for p, pt in enumerate(pts_h):
+                for f_, tree in enumerate(r["tables"]["_Hermitian_" + t]):
+                    exp = pyexpr.ev(tree, [pt]) * (F(2) / L2) ** k * (L2 if f_ % 2 == 1 else 1)
+                    try:
+                        g_ = got["v"][0][p][0][f_]
+                    except (IndexError, TypeError):
+                        g_ = None
+                    cmp("%s:Hermitian_%s_e_pg:after-rescale" % (name, t), g_, exp, scale=float((F(2) / L2) ** k * max(L2, 1)),
+                        nav=["hermite", name, "rescaled", "%s_e_pg" % t, "v", 0, p, 0, f_])
         ctx.note_case("eval:" + name)
     ctx.cov["eval_layer_values_compared"] = n
     ctx.obligation("corr:evaluation-layer (Get_*_pg layouts, dN_e_pg on affine images, Hermitian *_e_pg scaling)", not bad,
